@@ -136,50 +136,6 @@ func c11HostContexts(c *Ctx) {
 	}
 }
 
-// c12SourceCompile: C12-R8.  ActionSource.Compile writes nothing into the source it compiles: Spec.Copy and
-// Branch.Copy share ActionSource objects between versions of a spec, so compiling a new version must leave what the
-// installed version's actions use untouched.
-func c12SourceCompile(c *Ctx) {
-	comp := c.fn("core", "ActionSource", "Compile")
-	if comp == nil || len(comp.Params) == 0 {
-		return
-	}
-	recv := comp.Params[0]
-	bad := ""
-	n := 0
-	for _, f := range ssau.WithAnon(comp) {
-		ssau.Instrs(f, func(in ssa.Instruction) {
-			st, ok := in.(*ssa.Store)
-			if !ok {
-				return
-			}
-			fa, isFA := st.Addr.(*ssa.FieldAddr)
-			if !isFA {
-				return
-			}
-			n++
-			base := fa.X
-			if cell := cellOf(base); cell != nil {
-				if _, isFV := cell.(*ssa.FreeVar); isFV {
-					base = recv // captured receiver
-				}
-				for _, sv := range storedInto(cell) {
-					if sv == ssa.Value(recv) {
-						base = recv // the receiver, spilled because a literal captures it
-					}
-				}
-			}
-			if fv, isFV := base.(*ssa.FreeVar); isFV && ssau.TypeIs(fv.Type(), prog.Abs("core"), "ActionSource") {
-				base = recv
-			}
-			if base == ssa.Value(recv) {
-				bad = c.pos(in)
-			}
-		})
-	}
-	c.R.Check(bad == "", "C12-R8", "ActionSource.Compile: the source object is not written", c.P.Pos(comp.Pos()), "no store to a field of the receiver", "Compile stores into the ActionSource it compiles ("+bad+"): the object is shared with the copies of the spec it belongs to, so compiling a new version replaces what the installed version's actions run")
-}
-
 // c14RunMachines: C14-R6.  Once a machine has been walked, RunMachines answers with the walks: an error return
 // after that point makes ProcessMsg drop what the other machines emitted although they have moved.
 func c14RunMachines(c *Ctx) {
